@@ -198,7 +198,10 @@ func cmdCheck(args []string) int {
 			u := r.unit
 			fe := map[string]interface{}{"function": r.Func, "ssa_hash": r.SSAHash, "obligations": len(r.Obligations),
 				"inlined": r.Inlined, "contracts_and_externals_used": r.SpecsUsed, "vacuity": r.Vacuity,
-				"solver_ms": r.SolverMs, "script_lines": r.ScriptLines, "kept_auto_invariants": r.KeptAuto}
+				"solver_ms": r.SolverMs, "script_lines": r.ScriptLines, "kept_auto_invariants": r.KeptAuto, "unreachable_return_points": r.UnreachableReturns}
+			for _, ur := range r.UnreachableReturns {
+				fmt.Printf("VACUITY-WARNING %s: return point %s is unreachable under the assumed contracts\n", r.Func, ur)
+			}
 			funcs = append(funcs, fe)
 			for _, s := range r.SpecsUsed {
 				usedSpecs[s] = true
